@@ -42,6 +42,8 @@ class Ctx:
             if self.facts_dir is None:
                 self.facts_dir, self.facts_info = factsmod.ensure_facts()
             self._facts[key] = Facts(self.facts_dir, crates, adts_only=adts_only)
+        from . import guards
+        guards.CURRENT_FACTS = self._facts[key]      # lets the guard obligation look into the closures of a function
         return self._facts[key]
 
     def src(self, rel):
